@@ -312,6 +312,20 @@ pub fn act(w: &mut World, op: &Op) -> bool {
                 None => false,
             }
         }
+        Op::RespondHugeTotal { node, sel: s } => {
+            let i = *node as usize % n;
+            let cands: Vec<usize> = w.nodes[i].held_req.iter().enumerate().filter(|(_, (_, r))| matches!(r.body, RequestBody::FindNode { .. })).map(|(k, _)| k).collect();
+            match sel(&cands, *s) {
+                Some(k) => {
+                    let (addr, req) = w.nodes[i].held_req.remove(cands[k]);
+                    let r = Response { id: req.id.clone(), body: ResponseBody::Nodes { total: 40, nodes: vec![] } };
+                    w.responses_given.push((i, addr.clone(), r.clone()));
+                    let _ = w.nodes[i].vh.to_handler.send(HandlerIn::Response(addr, Box::new(r)));
+                    true
+                }
+                None => false,
+            }
+        }
         Op::RespondOtherKind { node, sel: s } => {
             let i = *node as usize % n;
             match sel(&w.nodes[i].held_req, *s) {
